@@ -45,9 +45,13 @@ TRUSTED_CLI = [
     "call_algorithm / dump_results / reconcile are exercised by that stream",
 ]
 OPEN_CLI = [
-    "C12_cost_line / C12_all_superset_any are compositions with explicit interface hypotheses (the embedding of a "
-    "solver solution into a serialisable output and `evaluated cost of the output = totalCost of the solution` "
-    "are hypotheses: the models of C05/C06 (Sol) and of C11 (SRecOutput) are different types)",
+    "C12_cost_line / C12_all_superset_any: the interface hypotheses are discharged in Properties/C12Bridge.lean "
+    "(embedding Sol -> RecOutput/SRecOutput in Model/SolOutput.lean; `evaluated cost of the embedded output = "
+    "totalCost`, well-formedness under injective safe names, the evaluator's set-invariance and the Newick law are "
+    "theorems: C12_cost_line_thl / _exh / _spfs / _uspfs, C12_all_superset_any_thl / _spfs / _uspfs). Left: (i) "
+    "`json.loads(json.dumps(d)) = d` is the only hypothesis (C12_cost_line_json; the Serialize model has no JSON text "
+    "layer; the dictionary-level statements need nothing); (ii) `--solutions any` inside each family's coherent region "
+    "only (outside, ANY in ALL fails: C05_any_incoherent_witness); `lca` not covered (single result)",
     "eval_cost: no theorem relates the shunting-yard parser to Python's grammar (tie only); proved: totality, "
     "no exception other than the three listed, the algebra of the values, and the print/parse round trip on "
     "fully-parenthesised token strings (clause 1 of C12_eval_cost)",
